@@ -56,9 +56,15 @@ def registration(info, ifaces, case, inpkg):
         opts = 'drvOpts{Template: %s, Unroll: %s, StubImpl: %s, WithResets: %s, Feature: %s}' % (
             json.dumps(case["template"]), "true" if td.get("unroll-variadic") is True else "false", "true" if td.get("stub-impl") is True else "false",
             "true" if td.get("with-resets") is True else "false", json.dumps(i["feature"]))
+        if i.get("no_iface"):   # the mock intentionally differs from the source interface (replace-type): methods are taken from the expecter
+            lines.append("\tdrvRegister(%s, %s, nil, %s)" % (json.dumps(sn + inst), ctor, opts))
+            continue
         lines.append("\tdrvRegister(%s, %s, reflect.TypeOf((*%s%s%s)(nil)).Elem(), %s)" % (json.dumps(sn + inst), ctor, srcq, i["name"], inst, opts))
-    head = ["package %s" % info["outpkg"], "", "import (", '\t"reflect"']
-    if not inpkg:
+    body_text = "\n".join(lines)
+    head = ["package %s" % info["outpkg"], "", "import ("]
+    if "reflect." in body_text:
+        head.append('\t"reflect"')
+    if not inpkg and "srcq." in body_text:
         head.append('\tsrcq "%s"' % info["srcpath"])
     for k in sorted(imports):
         head.append('\taq_%s "%s/ext/%s"' % (k, gosrc.MOD, gosrc.FOREIGN[k][0]))
@@ -81,7 +87,7 @@ def prepare(ctx, case, ifaces, known):
     ifaces = [i for i in ifaces if not c02.c01_known(known, case["template"], i["feature"])]
     if not ifaces:
         return None, None, [], "all interfaces are C01 known findings"
-    root, info = mockgen.build_module(ctx, case, ifaces)
+    root, info = mockgen.build_module(ctx, case, ifaces, extra_cfg=case.get("extra_cfg"))
     pre = mockgen.precheck(root)
     if pre.exit != 0:
         return None, None, None, "generated package rejected by the toolchain: " + (pre.err + pre.out)[-500:]
